@@ -94,7 +94,7 @@ def envelope_problems(data, request_version, request_decodable):
     if any(c[0] != T.RESPONSE_BATCH_ITEM.value for c in items):
         bad.append(("items|foreign", "non batch-item children in the message"))
     count = ttlv.find(hdr, T.BATCH_COUNT.value)[2]
-    if count != len(items) or count < 1:
+    if count != len(items):
         bad.append(("header|batch-count", "batch count %d but %d batch items" % (count, len(items))))
     for i, it in enumerate(items):
         tags = [c[0] for c in it[2]]
